@@ -50,7 +50,7 @@ var plausibleText = []string{
 	" lead", "trail ", "\ttab", "a  b", "x\r\n", "x\n", " ", "  ",
 	"007", "+8613800138000", "013800138000", "1e3", "0x10", "1.0", "-0", "+1", "00", "0", "1,000",
 	"AbC", "TRUE", "true", "null", "NaN", "nil",
-	"a/../b", "./a", "a//b", "C:\\x", "/", "a/", "..",
+	"a/../b", "./a", "a//b", "C:\\x", "/", "a/", "..", "../a.jpg", "../../x.bin", "../02_65_6502_1_abc.mp4", "..\\x.jpg", "/abs/x", "./x.jpg", "~/x", "a/./b",
 	"%41", "%7E", "&amp;", "\\n", "a+b", "a%20b",
 	"CMNET", "cmnet", "3gnet", "CMNET ", "card", "",
 }
